@@ -425,6 +425,23 @@ func init() {
 						sp.Strict = bits%2 == 1
 						cs = append(cs, fw.MkCase("C07", fmt.Sprintf("exhaustive-n%d", n), int64(bits), sp))
 					}
+					// the same graphs with every pattern of disabled processes
+					// (non-strict: a dependency on a disabled process is only logged)
+					for mask := 1; mask < 1<<uint(n); mask++ {
+						for _, dang := range []bool{false, true} {
+							if n == 3 && (bits+uint64(mask))%3 != 0 {
+								continue // a third of the 3-node combinations
+							}
+							sp := rpGraphFromBits(n, bits, dang)
+							for k := 0; k < n; k++ {
+								if mask&(1<<uint(k)) != 0 {
+									sp.Nodes[k].Disabled = true
+								}
+							}
+							sp.Loads = 1
+							cs = append(cs, fw.MkCase("C07", fmt.Sprintf("exhaustive-disabled-n%d", n), int64(bits)*16+int64(mask), sp))
+						}
+					}
 				}
 			}
 			rng := fw.Rand(seed)
